@@ -24,6 +24,7 @@ CONSTANTS
     Forge64,    \* forged TO2.ProveDevice classes (C02)
     Forge22,    \* forged TO0.OwnerSign classes (C06)
     Forge32,    \* forged TO1.ProveToRV classes (C07)
+    Served,     \* the protocols the HTTP handler has a responder for (a rendezvous server: {"TO0","TO1"}, ...)
     MaxReq,     \* bound on the number of exchanges (model checking only)
     WithMutants \* BOOLEAN: the C10 mutant actions are part of Next
 
@@ -48,8 +49,12 @@ ErrType    == 255
 Bodies     == {"honest", "replay", "foreign", "garbage", "skip"}
 Toks       == {"own", "none", "bad"}
 
+ProtoOf(t) == CASE t \in 10..13 -> "DI" [] t \in 20..23 -> "TO0" [] t \in 30..33 -> "TO1" [] OTHER -> "TO2"
+Unserved(t) == ProtoOf(t) \notin Served     \* no responder: "unsupported message type", the token (if any) is left alone
+
 NoSess == [proto |-> "none", live |-> FALSE, dev |-> "none", g |-> "orig", st |-> {}, mod |-> 0,
-           cnext |-> 0, sent |-> {}, prog |-> 0, proven |-> FALSE]
+           cnext |-> 0, sent |-> {}, prog |-> 0, proven |-> FALSE,
+           taint |-> FALSE]     \* a mutated device service info was accepted: what the owner holds of devmod is not what the device sent
 
 AllDone == NMods + 1      \* value of `mod` once every owner module completed
 ReqTTL == 3600            \* what the honest owner asks for
@@ -147,7 +152,8 @@ Respond(s, r, t, b) ==
             THEN LET fx == IF r.mod = 0 THEN <<>> ELSE <<[k |-> "ModuleCall", s |-> s, m |-> r.mod]>>
                      adv == ok(69, r.st \cup {"devmod"}, r.mod + 1, fx, rv, ov, nvouch)
                      stay == ok(69, r.st \cup {"devmod"}, r.mod, fx, rv, ov, nvouch)
-                 IN IF r.mod = 0 \/ b \in {"replay", "skip"} THEN adv \cup stay ELSE adv
+                 IN (IF r.mod = 0 \/ b \in {"replay", "skip"} THEN adv \cup stay ELSE adv)
+                    \cup (IF r.taint THEN fail ELSE {})      \* the honest continuation may no longer fit
             ELSE fail
       [] t = 70 ->
             IF b \in {"honest", "skip"} /\ {"kexDone", "pnonce", "snonce"} \subseteq r.st
@@ -173,7 +179,8 @@ Start(s, p, d) ==
                                   !.g = IF d \in Devs THEN cred[d] ELSE "orig"]
            good(st, nxt) == [base EXCEPT !.st = st, !.cnext = nxt]
            bad == Dead(base)
-           r == CASE p = "DI"  -> good({"chain", "hdr"}, 12)
+           r == CASE p \notin Served -> bad
+                  [] p = "DI"  -> good({"chain", "hdr"}, 12)
                   [] p = "TO0" -> good({"nonce0"}, 22)
                   [] p = "TO1" -> IF rv[d] \in {"reg", "regnc"} /\ cred[d] = "orig" THEN good({"nonce1"}, 32) ELSE bad
                   [] p = "TO2" -> IF ov[d] = "orig" /\ cred[d] = "orig" THEN good({"guid", "pnonce", "kexA"}, 62) ELSE bad
@@ -235,7 +242,9 @@ Mutated(s, atom) ==
 (* slot s (or none / a damaged one) and a replayed, foreign, crafted or         *)
 (* malformed body.                                                              *)
 CanReplay(r, t) == t \in r.sent
-CanSkip(r, t)   == t \in {66, 68, 70} /\ r.proto = "TO2" /\ r.proven   \* the device holds the tunnel keys and nonces (it received 65)
+CanSkip(r, t)   == /\ t \in {66, 68, 70} /\ r.proto = "TO2" /\ r.proven   \* the device holds the tunnel keys and nonces (it received 65)
+                   \* a crafted 68 carries devmod whole (none delivered yet) or nothing (devmod complete)
+                   /\ (t = 68 => ~("devmod" \in r.st /\ r.mod = 0))
 
 Inject(s, t, tok, b) ==
     LET r == sess[s] IN
@@ -243,9 +252,9 @@ Inject(s, t, tok, b) ==
     /\ t \in ReqTypes /\ tok \in Toks /\ b \in Bodies \ {"honest"}
     /\ (b = "replay" => CanReplay(r, t))
     /\ (b = "skip" => CanSkip(r, t))
-    /\ IF tok = "own" /\ r.live
+    /\ IF tok = "own" /\ r.live /\ ~Unserved(t)
        THEN \E o \in Respond(s, r, t, b) : Apply("inject", s, t, b, o)
-       ELSE \* no session behind the request: error, nothing changes
+       ELSE \* no session behind the request (or no responder for its type): error, nothing changes
             /\ last' = Record("inject", s, t, tok, b, 255, <<>>, r.live)
             /\ UNCHANGED <<sess, rv, ov, nvouch, cred>>
             /\ nreq' = nreq + 1
@@ -257,18 +266,23 @@ Inject(s, t, tok, b) ==
 Mutant(s, t) ==
     LET r == sess[s] IN
     /\ r.proto # "none" /\ t \in ReqTypes
-    /\ IF r.live
+    /\ IF r.live /\ ~Unserved(t)
        THEN \E b \in Bodies : \E o \in Respond(s, r, t, b) :
-                \* the honest client has not moved; an accepted mutant is a genuine message on record
+                \* the honest client has not moved; an accepted mutant is a genuine message on record.
+                \* An accepted TO0.OwnerSign mutant may have altered what TO0 does not authenticate (the
+                \* device certificate chain), so the registration may be one nobody can prove the key for.
+                \E reg \in (IF t = 22 /\ o.resp = 23 THEN {"reg", "regnc"} ELSE {"asis"}) :
                 Apply("mutant", s, t, "mutant", [o EXCEPT !.r.cnext = r.cnext,
-                                                          !.r.sent = IF o.resp = 255 THEN o.r.sent ELSE o.r.sent \cup {t}])
-       ELSE /\ last' = Record("mutant", s, t, "own", "mutant", 255, <<>>, FALSE)
+                                                          !.r.sent = IF o.resp = 255 THEN o.r.sent ELSE o.r.sent \cup {t},
+                                                          !.r.taint = o.r.taint \/ (t = 68 /\ o.resp = 69),
+                                                          !.rv = IF reg = "asis" THEN o.rv ELSE [o.rv EXCEPT ![r.dev] = reg]])
+       ELSE /\ last' = Record("mutant", s, t, "own", "mutant", 255, <<>>, r.live)
             /\ UNCHANGED <<sess, rv, ov, nvouch, cred>>
             /\ nreq' = nreq + 1
 
 MutantStart(s, t) ==
     /\ sess[s].proto # "none" /\ t \in StartTypes
-    /\ \E resp \in {t + 1, 255} : last' = Record("mutant", s, t, "own", "mutant", resp, <<>>, sess[s].live)
+    /\ \E resp \in (IF Unserved(t) THEN {255} ELSE {t + 1, 255}) : last' = Record("mutant", s, t, "own", "mutant", resp, <<>>, sess[s].live)
     /\ UNCHANGED <<sess, rv, ov, nvouch, cred>>
     /\ nreq' = nreq + 1
 
@@ -292,7 +306,7 @@ MutantHttp(s, t) ==
 (* A response type sent as a request is answered with an empty message. *)
 InjectRespType(s, t, tok) ==
     /\ sess[s].proto # "none" /\ t \in PlainRespTypes /\ tok \in Toks
-    /\ \E resp \in (IF tok = "bad" THEN {0, 255} ELSE {0}) :     \* a malformed Authorization header is refused outright
+    /\ \E resp \in (IF Unserved(t) THEN {255} ELSE IF tok = "bad" THEN {0, 255} ELSE {0}) :     \* a malformed Authorization header is refused outright
             last' = Record("inject", s, t, tok, "garbage", resp, <<>>, sess[s].live)
     /\ UNCHANGED <<sess, rv, ov, nvouch, cred>>
     /\ nreq' = nreq + 1
@@ -302,7 +316,8 @@ OrphanStart(s, t, b) ==
     /\ sess[s].proto # "none" /\ t \in StartTypes /\ b \in {"replay", "garbage"}
     /\ (b = "replay" => t \in sess[s].sent)
     /\ LET r == sess[s]
-           resps == IF b = "garbage" THEN (IF t = 20 THEN {21, 255} ELSE {255})   \* TO0.Hello is an empty array: some garbage is a valid Hello
+           resps == IF Unserved(t) THEN {255}
+                   ELSE IF b = "garbage" THEN (IF t = 20 THEN {21, 255} ELSE {255})   \* TO0.Hello is an empty array: some garbage is a valid Hello
                    ELSE {CASE t = 30 -> IF rv[r.dev] \in {"reg", "regnc"} /\ r.g = "orig" THEN 31 ELSE 255
                           [] t = 60 -> IF ov[r.dev] = "orig" /\ r.g = "orig" THEN 61 ELSE 255
                           [] OTHER -> t + 1}
@@ -381,7 +396,9 @@ NoTokenNoService ==
     IsReq /\ last.kind \in {"inject", "errmsg"} /\ last.tok \in {"none", "bad"} => last.resp \in {0, 255} /\ last.fx = <<>>
 
 (* C08: after a protocol's final message or any error the token is dead. *)
-FinalKills == IsReq /\ last.kind \in {"honest", "inject", "forged", "mutant"} /\ last.b # "http" /\ last.t \notin StartTypes /\ last.tok = "own" /\ last.resp \in {13, 23, 33, 71, 255} => ~last.live
+FinalKills == IsReq /\ last.kind \in {"honest", "inject", "forged", "mutant"} /\ last.b # "http" /\ last.t \notin StartTypes /\ last.tok = "own" /\ last.resp \in {13, 23, 33, 71, 255}
+                  /\ ~Unserved(last.t)       \* named deviation UnservedKeepsToken: a type without a responder is refused before the session is looked at
+              => ~last.live
 
 (* C02: SetupDevice and everything after it only in a proven session. *)
 EffectsNeedProof ==
